@@ -202,7 +202,8 @@ class SourceToSourceFileImportsTransformation(SourceToSourceTransformationBase):
                block.input.endpos.lineno),
               block )
             for block in self.import_blocks
-            if block.input.endpos.lineno <= max_lineno+1 ]
+            if _last_lineno(block.input) < max_lineno
+            or not block.input.text.joined.strip() ]
         if not annotated_blocks:
             raise NoImportBlockError()
         # Sort by the annotation only: blocks themselves are not orderable, and
